@@ -277,8 +277,7 @@ class Ctx:
                          theorem=prop_file)
         with open(os.path.join(VERIF, '.work', '.lock'), 'w') as lk:
             fcntl.flock(lk, fcntl.LOCK_EX)
-            if not os.path.exists(os.path.join(COQ, 'Makefile')):
-                subprocess.run('coq_makefile -f _CoqProject -o Makefile', shell=True, cwd=COQ, capture_output=True)
+            subprocess.run([os.path.join(VERIF, 'tools', 'mkcoqproject.sh')], capture_output=True)
             r = subprocess.run('timeout 1500 make -j16 %s' % (prop_file + 'o'), shell=True, cwd=COQ,
                                capture_output=True, text=True)
         if r.returncode != 0:
